@@ -160,6 +160,7 @@ void reschedule(const char* kind) {
 	}
 
 	std::vector<Task*> runnable;
+	bool jumped = false;
 	for (;;) {
 		runnable.clear();
 		for (Task* t : S.tasks)
@@ -181,6 +182,7 @@ void reschedule(const char* kind) {
 				verdict("idle-forever", "all tasks blocked and no wake-up source within the stuck threshold (no API call with a bound in progress)\n" + describe_tasks());
 		}
 		S.now = dl;
+		jumped = true;
 		S.stats.time_jumps++;
 	}
 
@@ -236,7 +238,9 @@ void reschedule(const char* kind) {
 			break;
 		}
 		case POL_NONPREEMPT:
-			next = me_runnable ? me : runnable[0];
+			// after a clock jump several tasks may become ready at the same instant: break the
+			// tie by task id, not by who happened to call the scheduler (deterministic-history mode)
+			next = (me_runnable && !jumped) ? me : runnable[0];
 			break;
 		default:
 			next = runnable[rnd_n(runnable.size())];
